@@ -53,7 +53,8 @@ size_t vrt_region_size (const void *p);   /* size of the registered region / all
 void vrt_fail_alloc_after (int k);
 void vrt_fail_my_alloc_after (int k);   /* the same, counting only the calling thread's allocations */
 int vrt_alloc_count (void);
-uint32_t vrt_peek32 (const void *p);    /* un-instrumented read of a 32-bit word of library state, for directing a scenario only */
+uint32_t vrt_peek32 (const void *p);
+uint32_t vrt_peek32_or (const void *p, uint32_t dflt);   /* dflt if the word lies in a freed block */    /* un-instrumented read of a 32-bit word of library state, for directing a scenario only */
 
 /* plain-access callbacks (from the compile-only -fsanitize=thread instrumentation) */
 void vrt_plain (const void *addr, int size, int is_write, const void *pc);
